@@ -301,6 +301,9 @@ func valid(t *rapid.T, n *model.Node, o *Opts, depth int) (jv.V, bool) {
 	case model.KAllOf:
 		out := jv.V{K: jv.Obj, O: []jv.KV{}}
 		for _, b := range n.Branches {
+			if rb := b.Resolve(); rb != nil && rb.Kind == model.KObject && len(rb.Props) == 0 && rb.NoType {
+				continue // required-only branch: satisfied below
+			}
 			bv, ok := valid(t, b, o, depth+1)
 			if !ok {
 				return jv.V{}, false
@@ -308,6 +311,32 @@ func valid(t *rapid.T, n *model.Node, o *Opts, depth int) (jv.V, bool) {
 			for _, kv := range bv.O {
 				if !out.Has(kv.K) {
 					out.O = append(out.O, kv)
+				}
+			}
+		}
+		for _, b := range n.Branches {
+			rb := b.Resolve()
+			if rb == nil || rb.Kind != model.KObject || len(rb.Props) != 0 || !rb.NoType {
+				continue
+			}
+			for _, r := range rb.Required {
+				if out.Has(r) {
+					continue
+				}
+				for _, sb := range n.Branches {
+					if sn := sb.Resolve(); sn != nil {
+						if pn := sn.Prop(r); pn != nil {
+							oo := *o
+							oo.NoNulls = true
+							if v, ok := valid(t, pn, &oo, depth+1); ok {
+								out.O = append(out.O, jv.KV{K: r, V: v})
+							}
+							break
+						}
+					}
+				}
+				if !out.Has(r) {
+					return jv.V{}, false
 				}
 			}
 		}
